@@ -4,7 +4,7 @@ use crate::analysis::Analysis;
 use crate::check::{Case, Judged, Tier};
 use crate::gen::*;
 use crate::oracle::{self, Violation};
-use crate::refcodec::Packet;
+use crate::refcodec::{Form, Packet, Props};
 use crate::rng::{fnv_of, Rng};
 use crate::scenario::*;
 use crate::spec::*;
@@ -250,6 +250,27 @@ pub fn generate(prop: &str, _tier: Tier, rng: &mut Rng, _idx: u64) -> Case {
                 g.action();
             }
             g.drain();
+            if prop == "C07" && g.rng.chance(1, 8) {
+                // the SERVER ends the connection gracefully (DISCONNECT 0x00, run() returns
+                // Ok): the context is still there, so no stream may end; the same Context is
+                // then connected again and the old subscriptions are still served
+                let form = if g.rng.coin() { Form::Shortest } else { Form::Full };
+                g.broker(BrokerPkt::Disconnect { reason: 0, props: Props::new(), form });
+                g.push(Step::Deliver { n: usize::MAX });
+                g.settle();
+                let connect = g.connect_spec();
+                g.push(Step::Reconnect { elapsed: u64::MAX, connect, auths: vec![] });
+                g.settle();
+                let props = g.connack_props();
+                g.broker(BrokerPkt::Connack { session_present: false, reason: 0, props });
+                g.push(Step::Deliver { n: usize::MAX });
+                g.settle();
+                for sub in g.live_streams() {
+                    g.inbound_publish_to(sub);
+                }
+                g.flush();
+                return finish_case(g, "inbound/server-disconnect-then-reconnect");
+            }
             finish_case(g, "inbound")
         }
         "C01" => crate::codec::codec_out(rng, _tier == Tier::Thorough),
@@ -586,6 +607,11 @@ pub fn judge(prop: &str, sc: &Scenario, aux: Option<&Scenario>) -> Judged {
         }
         "C16" => {
             viols.extend(oracle::c16_single(&a));
+            // "nothing is lost" is also judged absolutely on the wake-only execution (a loss that
+            // hits every polling discipline alike is invisible to the comparison below)
+            for x in oracle::streams_check(&a, "C16") {
+                viols.push(Violation { property: "C16", class: format!("C16/observed-differs-from-injected/{}", x.class.split('/').skip(1).collect::<Vec<_>>().join("/")), message: x.message });
+            }
             let base_obs = oracle::observable(&a);
             let mut sweep_sc = sc.clone();
             sweep_sc.config.sweep = true;
